@@ -62,7 +62,17 @@ func c18Options() (c18Opts, []JSONOption) {
 	if o.indent {
 		ind = "  "
 	}
-	return o, []JSONOption{JSONIndent(ind), JSONUseEnumNumbers(o.enumNums), JSONIncludeZeroValues(o.zeros), JSONAllowUnknownFields(o.allowUnknown), JSONAllowPartialMessages(o.partial)}
+	var opts []JSONOption
+	if nondetBool("overridden") {
+		// every option first given with the opposite value: an option applies as given, the later one counts
+		other := "  "
+		if o.indent {
+			other = ""
+		}
+		opts = append(opts, JSONIndent(other), JSONUseEnumNumbers(!o.enumNums), JSONIncludeZeroValues(!o.zeros), JSONAllowUnknownFields(!o.allowUnknown), JSONAllowPartialMessages(!o.partial))
+	}
+	opts = append(opts, JSONIndent(ind), JSONUseEnumNumbers(o.enumNums), JSONIncludeZeroValues(o.zeros), JSONAllowUnknownFields(o.allowUnknown), JSONAllowPartialMessages(o.partial))
+	return o, opts
 }
 
 func c18Pick(own *c18Own) (interface{}, int) {
